@@ -106,8 +106,27 @@ def r2(ctx):
     carried = sorted({k for o in falls for k in o.env if k not in lp._sym_env or norm(o.env[k]) != norm(lp._sym_env.get(k))} & {
         n.id for o in after if o.value is not None for n in ast.walk(o.value) if isinstance(n, ast.Name)})
     F = carried[0] if len(carried) == 1 else None
-    AFF = "{VAR_f for VAR_f in %s if %s in _factor_symbols(VAR_f, use_sympy=use_sympy)}" % (F, var)
-    AFF2 = "{VAR_f for VAR_f in %s if %s in _factor_symbols(VAR_f, use_sympy)}" % (F, var)
+    # the symbols function, by role: the callee of the membership test `var in H(factor, …)` that filters the affected set — a module
+    # function taking (factor, use_sympy), or a closure of differentiate_term taking the factor and reading use_sympy from its scope
+    H, s, closure = "_factor_symbols", None, False
+    for c in ast.walk(fn):
+        if isinstance(c, ast.comprehension):
+            for t in c.ifs:
+                if isinstance(t, ast.Compare) and len(t.ops) == 1 and isinstance(t.ops[0], ast.In) and norm(t.left) == var and isinstance(t.comparators[0], ast.Call) \
+                        and isinstance(t.comparators[0].func, ast.Name):
+                    H = t.comparators[0].func.id
+    if f"{f.qualname}.<locals>.{H}" in P.functions:
+        s, closure = P.functions[f"{f.qualname}.<locals>.{H}"], True
+    elif f"formulaic.utils.calculus.{H}" in P.functions:
+        s = P.functions[f"formulaic.utils.calculus.{H}"]
+    else:
+        raise AnalysisError(f"anchor vanished: the symbols function `{H}` of differentiate_term")
+    US = params[2] if len(params) > 2 else "use_sympy"
+    if closure and len(param_names(s.node)) == 1 and any(isinstance(n_, ast.Name) and n_.id == US for n_ in ast.walk(s.node)):
+        AFF = AFF2 = "{VAR_f for VAR_f in %s if %s in %s(VAR_f)}" % (F, var, H)
+    else:
+        AFF = "{VAR_f for VAR_f in %s if %s in %s(VAR_f, use_sympy=%s)}" % (F, var, H, US)
+        AFF2 = "{VAR_f for VAR_f in %s if %s in %s(VAR_f, %s)}" % (F, var, H, US)
     # (a) zero rule
     okz = False
     aff_text = None
@@ -117,7 +136,7 @@ def r2(ctx):
             aff_text = norm(zero[0].conds[0][0])
             okz = sym.pm_any(LIT0, zero[0].value) is not None
     ctx.check(aff_text is not None, "C20.R2", "a factor is affected iff the variable is among its symbols", line, ctx.construct(f, text="affected"),
-              f"the affected set must be {{factor for factor in {F} if {var} in _factor_symbols(factor, use_sympy=use_sympy)}}, recomputed per variable; "
+              f"the affected set must be {{factor for factor in {F} if {var} in {H}(factor, use_sympy=use_sympy)}}, recomputed per variable; "
               f"in-loop returns: {[repr(o)[:160] for o in zero]}")
     ctx.check(okz, "C20.R2", "a term not containing the variable differentiates to the literal 0 term", line, ctx.construct(f, text="zero"),
               "expected: if no factor is affected, return Term({Factor('0', eval_method='literal')}) immediately")
@@ -151,13 +170,12 @@ def r2(ctx):
         ok2 = len(n) == 1 and sym.pm(f"Term({F})", sym.simplify(n[0].value, {F: True})) is not None
     ctx.check(ok1, "C20.R2", "an empty product becomes the literal 1 term", f.where, ctx.construct(f, text="one"), f"final returns {[repr(o)[:140] for o in rets]}")
     ctx.check(ok2, "C20.R2", "otherwise the result is the term over the remaining factors", f.where, ctx.construct(f, text="rest"), f"final returns {[repr(o)[:140] for o in rets]}")
-    s = P.func("formulaic.utils.calculus._factor_symbols")
     sp = param_names(s.node)
     try:
         souts = [o for o in sym.outcomes(s.node) if o.kind == "return"]
     except sym.Unmodelled:
         souts = []
-    plain = sym.select(souts, {sp[1]: False})
+    plain = sym.select(souts, {(US if closure and len(sp) == 1 else sp[1]): False})
     ok = len(plain) == 1 and sym.pm("{%s.expr}" % sp[0], plain[0].value) is not None
     ctx.check(ok, "C20.R2", "without sympy a factor's only symbol is its own expression", s.where, ctx.construct(s, text="symbols"), f"returns {[repr(o)[:120] for o in plain]}")
     d = P.func("formulaic.utils.calculus._differentiate_factors")
